@@ -145,18 +145,25 @@ func crashFinding(stderr string, c Case) *vk.Finding {
 	case strings.Contains(stderr, "out of memory"):
 		kind = "out-of-memory"
 	}
+	// Name the finding after the code under test on top of the stack. A runaway
+	// recursion usually alternates between a few functions and which of them is
+	// innermost when the stack limit is hit is arbitrary: take the alphabetically
+	// first function name among the top frames.
 	fn := ""
-	// first goroutine section after "goroutine N [running]"
-	if i := strings.Index(stderr, "goroutine "); i >= 0 {
-		if m := ogenFrameRe.FindStringSubmatch(stderr[i:]); m != nil {
-			fn = m[1]
+	if i := strings.Index(stderr, "\ngoroutine "); i >= 0 {
+		ms := ogenFrameRe.FindAllStringSubmatch(stderr[i:], 40)
+		for _, m := range ms {
+			f := m[1]
+			if j := strings.Index(f, ".func"); j >= 0 {
+				f = f[:j]
+			}
+			if k := strings.LastIndex(f, "."); k >= 0 {
+				f = f[k+1:]
+			}
+			if fn == "" || f < fn {
+				fn = f
+			}
 		}
-	}
-	if j := strings.Index(fn, ".func"); j >= 0 {
-		fn = fn[:j]
-	}
-	if k := strings.LastIndex(fn, "."); k >= 0 {
-		fn = fn[k+1:]
 	}
 	cl := kind
 	if fn != "" {
